@@ -102,7 +102,7 @@ def _case(draw):
                 a = 'list2'
             acts.append([k, a])
         stages.append(acts)
-    return {'top': top, 'stages': stages, 'perm': perm_seed}
+    return {'top': top, 'stages': stages, 'perm': perm_seed, 'shared_ctx': draw(st.booleans())}
 
 
 def strategy():
@@ -216,12 +216,12 @@ def _ids(log):
     return out
 
 
-def _run(texts):
+def _run(texts, ctx=None):
     import sys
     for m in [m for m in sys.modules if m.startswith('awesomeyaml.eval_node_namespace')]:
         del sys.modules[m]
     vfrec.reset()
-    status, got = O.try_call(O.build_config, texts)
+    status, got = O.try_call(O.build_config, texts, eval_ctx=ctx)
     return status, got, list(vfrec.LOG)
 
 
@@ -247,10 +247,16 @@ def run_case(case):
     if overwritten:
         labels.add('overwritten')
     results = []
+    ctx = None
+    if case.get('shared_ctx'):
+        # one user-supplied evaluation context for every build of the case ("during one build" must not depend on earlier builds)
+        from awesomeyaml import EvalContext
+        ctx = EvalContext()
+        labels.add('shared-eval-context')
     for layout, doc in (('original', base), ('permuted', permute(base, case['perm']))):
         texts = [tdoc.render(doc)] + [tdoc.render(d) for d in later]
         src = f'\nlayout: {layout}\nsources:\n' + '\n'.join(texts)
-        status, got, log = _run(texts)
+        status, got, log = _run(texts, ctx)
         if status != 'ok':
             raise Violation(f'C10: build failed: {type(got).__name__}: {str(got)[:500]}{src}')
         counts = _ids(log)
